@@ -36,7 +36,8 @@ import time
 import traceback
 
 ROOT = os.path.dirname(os.path.dirname(os.path.abspath(__file__)))
-EVIDENCE_DIR = os.path.join(ROOT, "evidence")
+# runs against a scratch source root (mutant runs) never overwrite the committed evidence
+EVIDENCE_DIR = os.path.join(ROOT, "evidence") if not SRC else os.path.join(ROOT, "replays", "evidence-scratch")
 REPLAY_DIR = os.path.join(ROOT, "replays")
 KNOWN_FILE = os.path.join(ROOT, "known_findings.json")
 NWORKERS = int(os.environ.get("VERIF_WORKERS", "16"))
